@@ -123,6 +123,15 @@ def structures(ctx):
             break
     het = [("1HPX", C.test_pdb_text("1HPX")), ("4DFR-A", "\n".join(ln for ln in C.test_pdb_text("4DFR").splitlines()
                                                               if not (C.is_atom(ln) and ln[21] != "A")) + "\n")]
+    # halogenated ligands (C-F, C-Cl, C-Br, C-I bonds of 1.35 - 2.14 A) around a fragment
+    from .. import ligandkit as K
+    hb = C.chain_lines("1HPX", "A", 40, 12)
+    cx, cy, cz = C.centroid(hb)
+    halo = list(hb) + [C.TER]
+    for k_, nm in enumerate(("fluoromethane", "chloromethane", "bromomethane", "iodomethane")):
+        off = [(9000, 0, 0), (-9000, 1500, 0), (0, 9500, 1000), (500, -9500, -1200)][k_]
+        halo += K.lines(nm, (int(cx) + off[0] + 3, int(cy) + off[1] + 7, int(cz) + off[2] + 11), num=500 + k_, serial0=5000 + 10 * k_)
+    het.append(("frag-1HPX-A40+12+halomethanes", C.join(halo)))
     # a chain that starts with an aspartate (N+ and the carboxylate are covalently coupled), scored with the optional
     # parameter settings of that coupling (common charge centre, shared determinants): names ending in [tag] get -p
     het.append(("frag-3SGB-I0+14 [ccc+shared+keep]", C.join(C.chain_lines("3SGB", "I", 0, 14) + [C.TER])))
@@ -180,7 +189,9 @@ def run(ctx):
             ctx.violation(f"run:exception:{name}", repr(base.exc), {"pdb": text})
             continue
         is_prot = (name, text) in prot
-        for m in pick(nper["a"] if not is_prot else nper["c"], si + ctx.seed):
+        # all 24 rotations for the first two amino-acid structures; a rotating third of them for the special-purpose ones
+        nrot = nper["a"] if not is_prot else (nper["c"] if (ctx.thorough() or [x[0] for x in prot].index(name) < 2) else 8)
+        for m in pick(nrot, si + ctx.seed):
             t = translation_for(text, m["p"], m["s"], m["t"])
             mt = move_text(text, m["p"], m["s"], t)
             R = rot_fn(m["p"], m["s"])
